@@ -208,6 +208,321 @@ def c15(inp, rng, out):
     out.update({"mismatches": mism.as_list(), "executions": n_exec, "samples": samples, "fuzz": fuzz,
                 "observed_kinds": stats})
 
+# ----------------------------------------------------------------------------- C16
+import base64
+import kd_interp as KD
+
+
+def b32e(b):
+    return base64.b32encode(b).rstrip(b"=").lower()
+
+
+def b32d(s):
+    s = s.upper()
+    return base64.b32decode(s + b"=" * ((8 - len(s) % 8) % 8))
+
+
+def split_fields(s):
+    """b'URI:KIND:f1:f2...' -> raw fields; base32 fields decoded to bytes, numbers to int.
+    (CHK-shaped: 5 fields, last three numbers; otherwise all base32.)"""
+    raw = s.split(b":")[2:]
+    out = []
+    for i, f in enumerate(raw):
+        out.append(int(f) if (len(raw) == 5 and i >= 2) else b32d(f))
+    return out
+
+
+def eval_term(T, t, fields):
+    if t["op"] == "f":
+        return fields[t["i"] - 1]
+    if t["op"] == "d":
+        arg = eval_term(T, t["arg"], fields)
+        deps = KD.refs(T[t["name"]])
+        assert len(deps) == 1, (t["name"], deps)
+        return KD.evaluate(T, t["name"], {list(deps)[0]: arg})
+    if t["op"] == "none":
+        return None
+    raise ValueError(t)
+
+
+def serialise(kind, values):
+    return b"URI:" + kind.encode() + b":" + b":".join((b"%d" % v) if isinstance(v, int) else b32e(v) for v in values)
+
+
+def flags_of(u):
+    return {"kind": kind_of(u), "ro": bool(u.is_readonly()), "mut": bool(u.is_mutable())}
+
+
+def c16(inp, rng, out):
+    from grid import Grid
+    from allmydata.unknown import UnknownNode
+    table, T, nconc = inp["tokens"], inp["kd"], inp["nconc"]
+    mism = Mismatches()
+    stats = {"atten": 0, "ctx": 0, "un": 0, "steps": 0}
+    samples = []
+    g = Grid(num_servers=1, k=1, n=1, happy=1)
+
+    def step(recv_kind, method, obj_fn, exp_flags, exp_values, orig_secret_b32, orig_lvl, example):
+        """call a diminishing method; compare kind, flags, serialisation, secret leak.  Returns the object or None."""
+        stats["steps"] += 1
+        base = "C16:%s:%s" % (recv_kind, method)
+        try:
+            o = obj_fn()
+        except Exception as e:
+            mism.add(base + ":exception", "%s.%s() raised %s" % (recv_kind, method, type(e).__name__), example)
+            return None
+        if exp_flags["kind"] == "None":
+            if o is not None:
+                mism.add(base + ":kind", "%s.%s() should be None, is %s" % (recv_kind, method, kind_of(o)), example)
+            return None
+        if o is None or kind_of(o) != exp_flags["kind"]:
+            mism.add(base + ":kind", "%s.%s() must be a %s cap, is %s" % (recv_kind, method, exp_flags["kind"], kind_of(o)), example)
+            return None
+        try:
+            fl = flags_of(o)
+            st = o.to_string()
+        except Exception as e:
+            mism.add(base + ":exception", "flags/to_string of %s.%s() raised %s" % (recv_kind, method, type(e).__name__), example)
+            return None
+        if (fl["ro"], fl["mut"]) != (exp_flags["ro"], exp_flags["mut"]):
+            mism.add(base + ":flags", "is_readonly/is_mutable of %s.%s(): expected %s, got %s" % (recv_kind, method, exp_flags, fl), example)
+        want = serialise(exp_flags["kind"], exp_values)
+        if st != want:
+            mism.add(base + ":fields", "%s.%s() carries other fields than the derivations specify" % (recv_kind, method),
+                     dict(example, expected=L.enc(want), got=L.enc(st)))
+        if exp_flags["lvl"] < orig_lvl:
+            for sec in orig_secret_b32:
+                if sec in st:
+                    mism.add(base + ":secret_leak", "the %s cap from %s() contains the stronger secret" % (exp_flags["kind"], method), example)
+        return o
+
+    for case in inp["cases"]:
+        t = case["t"]
+        for r in range(nconc):
+            if t == "atten":
+                stats["atten"] += 1
+                chars = [c for tk in case["toks"] for c in table[tk]]
+                s = b"".join(L.concretise(chars, rng))
+                k = case["self"]["kind"]
+                ex = {"string": L.enc(s)}
+                try:
+                    u = uri.from_string(s)
+                    if kind_of(u) != k:
+                        mism.add("C16:%s:from_string:kind" % k, "canonical %s string parsed as %s" % (k, kind_of(u)), ex)
+                        continue
+                    fields = split_fields(s)
+                    fl = flags_of(u)
+                    if (fl["ro"], fl["mut"]) != (case["self"]["ro"], case["self"]["mut"]):
+                        mism.add("C16:%s:self:flags" % k, "is_readonly/is_mutable: expected %s got %s" % (case["self"], fl), ex)
+                    si = eval_term(T, case["si"], fields)
+                    if u.get_storage_index() != si:
+                        mism.add("C16:%s:self:storage_index" % k, "get_storage_index() differs from the specified derivation", ex)
+                    raw = s.split(b":")[2:]
+                    secret = [raw[i - 1] for i in case["secret"]]
+                    lvl = case["self"]["lvl"]
+                    rov = [eval_term(T, x, fields) for x in case["ro_fields"]]
+                    vv_ = [eval_term(T, x, fields) for x in case["v_fields"]]
+                    rovv = [eval_term(T, x, fields) for x in case["rov_fields"]]
+                    ro = step(k, "get_readonly", u.get_readonly, case["readonly"], rov, secret, lvl, ex)
+                    v = step(k, "get_verify_cap", u.get_verify_cap, case["verify"], vv_, secret, lvl, ex)
+                    if ro is not None:
+                        if ro.get_storage_index() != si:
+                            mism.add("C16:%s:get_readonly:storage_index" % k, "storage index changes along the chain", ex)
+                        if ro is not u:
+                            step(case["readonly"]["kind"], "get_verify_cap", ro.get_verify_cap, case["ro_verify"], rovv, secret, lvl, ex)
+                            step(case["readonly"]["kind"], "get_readonly", ro.get_readonly, case["readonly"], rov, secret, lvl, ex)
+                    if v is not None:
+                        if v.get_storage_index() != si:
+                            mism.add("C16:%s:get_verify_cap:storage_index" % k, "storage index changes along the chain", ex)
+                        if v is not u:
+                            step(case["verify"]["kind"], "get_readonly", v.get_readonly, case["v_readonly"], vv_, secret, lvl, ex)
+                            step(case["verify"]["kind"], "get_verify_cap", v.get_verify_cap, case["v_verify"], vv_, secret, lvl, ex)
+                    if len(samples) < 3 and r == 0:
+                        samples.append({"cap": L.enc(s), "readonly": L.enc(ro.to_string()) if ro is not None else None,
+                                        "verify_expected": L.enc(serialise(case["verify"]["kind"], vv_)) if case["verify"]["kind"] != "None" else None})
+                except Exception as e:
+                    mism.add("C16:%s:exception:%s" % (k, type(e).__name__), "unexpected exception: %s" % str(e)[:200], ex)
+            elif t == "ctx":
+                stats["ctx"] += 1
+                chars = [c for tk in case["toks"] for c in table[tk]]
+                pieces = L.concretise(chars, rng)
+                s = b"".join(pieces)
+                ex = {"string": L.enc(s), "deep": case["deep"], "slots": case["slots"]}
+                obs = observe_parse(s, case["deep"])
+                for key, what in L.compare_parse(dict(case, why="context"), obs, pieces):
+                    mism.add(key.replace("C15:", "C16:from_string:", 1), what, dict(ex, obs=obs))
+                w = s if case["slots"] in ("w", "wr") else None
+                rd = s if case["slots"] in ("r", "wr") else None
+                tag = case["kind"]
+                try:
+                    node = g.make_nodemaker().create_from_cap(w, rd, deep_immutable=case["deep"])
+                except Exception as e:
+                    mism.add("C16:create_from_cap:%s:exception" % tag, "create_from_cap raised %s" % type(e).__name__, ex)
+                    continue
+                cls = type(node).__name__
+                if cls != case["cls"]:
+                    mism.add("C16:create_from_cap:%s:class" % tag, "node class %s, expected %s" % (cls, case["cls"]), ex)
+                    continue
+                try:
+                    canon = b"".join(pieces[case["lo"] - 1:case["hi"]])
+                    if cls == "UnknownNode":
+                        check_unknown(mism, "C16:create_from_cap:UnknownNode", node, case["un"], {"rw": pieces, "ro": pieces}, ex)
+                    else:
+                        if hasattr(node, "is_readonly") and bool(node.is_readonly()) != case["flags"]["ro"]:
+                            mism.add("C16:create_from_cap:%s:is_readonly" % tag, "node.is_readonly() is %s" % node.is_readonly(), ex)
+                        if bool(node.is_mutable()) != case["flags"]["mut"]:
+                            mism.add("C16:create_from_cap:%s:is_mutable" % tag, "node.is_mutable() is %s" % node.is_mutable(), ex)
+                        if hasattr(node, "get_uri"):
+                            if node.get_uri() != canon:
+                                mism.add("C16:create_from_cap:%s:uri" % tag, "node.get_uri() is not the canonical cap string", ex)
+                            wu = node.get_write_uri()
+                            if wu != (None if case["flags"]["ro"] else canon):
+                                mism.add("C16:create_from_cap:%s:write_uri" % tag, "node.get_write_uri() = %r" % (wu,), ex)
+                            ru = node.get_readonly_uri()
+                            okp = ru is not None and ru.startswith(b"URI:" + case["ro_kind"].encode() + b":")
+                            if not okp or (case["ro_kind"] == case["kind"] and ru != canon) or (case["ro_kind"] != case["kind"] and canon.split(b":")[2] in ru):
+                                mism.add("C16:create_from_cap:%s:readonly_uri" % tag, "node.get_readonly_uri() = %r" % (ru,), ex)
+                except Exception as e:
+                    mism.add("C16:create_from_cap:%s:exception" % tag, "inspecting the node raised %s: %s" % (type(e).__name__, str(e)[:100]), ex)
+            else:
+                stats["un"] += 1
+                pcs = {}
+                args = {}
+                for slot in ("rw", "ro"):
+                    if case[slot + "_given"]:
+                        pcs[slot] = L.concretise([c for tk in case[slot + "_toks"] for c in table[tk]], rng)
+                        args[slot] = b"".join(pcs[slot])
+                    else:
+                        pcs[slot] = []
+                        args[slot] = None
+                ex = {"rw": L.enc(args["rw"]), "ro": L.enc(args["ro"]), "deep": case["deep"]}
+                try:
+                    node = UnknownNode(args["rw"], args["ro"], deep_immutable=case["deep"])
+                except Exception as e:
+                    mism.add("C16:UnknownNode:exception", "UnknownNode() raised %s" % type(e).__name__, ex)
+                    continue
+                check_unknown(mism, "C16:UnknownNode", node, case["un"], pcs, ex)
+    g.close()
+    out.update({"mismatches": mism.as_list(), "stats": stats, "samples": samples})
+
+
+def check_unknown(mism, base, node, exp, pieces, ex):
+    err = err_class(node.error)
+    if err != exp["err"]:
+        mism.add(base + ":error", "UnknownNode error class %s, expected %s" % (err, exp["err"]), ex)
+    for slot, got in (("rw", node.rw_uri), ("ro", node.ro_uri)):
+        e = exp[slot]
+        want = None
+        if e["present"]:
+            want = e["add"].encode() + b"".join(pieces[e["src"]][e["drop"]:])
+        if got != want:
+            mism.add("%s:%s_uri" % (base, slot), "UnknownNode.%s_uri = %r, expected %r" % (slot, got, want), ex)
+        if got is not None and slot == "ro" and not (got.startswith(b"ro.") or got.startswith(b"imm.")):
+            mism.add(base + ":ro_uri_without_alleged_prefix", "ro_uri kept without ro./imm. prefix", ex)
+
+
+def c43(inp, rng, out):
+    """Build the two objects of every pair independently (two parses / two NodeMakers) and observe ==, !=, hash."""
+    from grid import Grid
+    table, nconc = inp["tokens"], inp["nconc"]
+    mism = Mismatches()
+    stats = {}
+    samples = []
+    g = Grid(num_servers=1, k=1, n=1, happy=1)
+
+    def conc_pair(case):
+        t1, t2 = case["toks1"], case["toks2"]
+        p1 = [L.concretise(table[tk], rng) for tk in t1]
+        if case["t"] in ("unode", "ucap"):
+            share = {len(t2)} if case["share"] else set()
+            srcpos = {len(t2): len(t1)}
+        else:
+            share = set(case["share"])
+            srcpos = {p: p for p in share}
+        p2 = []
+        for j, tk in enumerate(t2, 1):
+            if j in share:
+                p2.append(p1[srcpos[j] - 1])
+                continue
+            pc = L.concretise(table[tk], rng)
+            same_tok_other_side = t1[j - 1] if j <= len(t1) else None
+            if tk == same_tok_other_side and len(table[tk]) and tk not in ("COLON",) and not tk.startswith(("P:", "Q:", "ro.", "imm.")):
+                for _ in range(100):          # a field that must differ really differs
+                    if pc != p1[j - 1]:
+                        break
+                    pc = L.concretise(table[tk], rng)
+            p2.append(pc)
+        flat = lambda ps: b"".join(b"".join(x) for x in ps)
+        return flat(p1), flat(p2)
+
+    def build(sort_or_cls, s, nm, slot="w", deep=False):
+        if sort_or_cls == "cap":
+            return uri.from_string(s)
+        if sort_or_cls == "bytes":
+            return s
+        if sort_or_cls == "none":
+            return None
+        if slot == "w":
+            return nm.create_from_cap(s, None, deep_immutable=deep)
+        return nm.create_from_cap(None, s, deep_immutable=deep)
+
+    for case in inp["cases"]:
+        for r in range(nconc):
+            s1, s2 = conc_pair(case)
+            ex = {"a": L.enc(s1), "b": L.enc(s2), "t": case["t"], "cls": [case["cls1"], case["cls2"]]}
+            if case["t"] == "unode":
+                ex.update({"slots": [case["slot1"], case["slot2"]], "deep": [case["deep1"], case["deep2"]]})
+            try:
+                a = build(case["cls1"], s1, g.make_nodemaker(), case.get("slot1", "w"), case.get("deep1", False))
+                b = build(case["cls2"], s2, g.make_nodemaker(), case.get("slot2", "w"), case.get("deep2", False))
+            except Exception as e:
+                mism.add("C43:build:exception:%s" % type(e).__name__, "building the objects raised: %s" % str(e)[:100], ex)
+                continue
+            ca, cb = type(a).__name__, type(b).__name__
+            if case["t"] in ("node", "unode") and (ca != case["cls1"] or cb != case["cls2"]):
+                mism.add("C43:build:class", "node classes %s/%s, Spec expects %s/%s" % (ca, cb, case["cls1"], case["cls2"]), ex)
+                continue
+            who = ca if ca == cb else "%s-vs-%s" % (ca, cb)
+            stats[who] = stats.get(who, 0) + 1
+            v = case["v"]
+            try:
+                eq, ne, eq2, ne2 = (a == b), (a != b), (b == a), (b != a)
+                refl_eq, refl_ne = (a == a), (a != a)
+            except Exception as e:
+                mism.add("C43:%s:compare_raises" % who, "comparison raised %s" % type(e).__name__, ex)
+                continue
+            obs = {"eq": eq, "ne": ne, "eq_rev": eq2, "ne_rev": ne2}
+            exo = dict(ex, observed={k: repr(x) for k, x in obs.items()}, expected=v)
+            if not all(isinstance(x, bool) for x in (eq, ne, eq2, ne2)):
+                mism.add("C43:%s:not_boolean" % who, "==/!= do not return booleans", exo)
+                continue
+            if eq != v["eq"]:
+                mism.add("C43:%s:%s" % (who, "eq_identity" if v["eq"] else "eq_conflates"),
+                         "== is %s for %s" % (eq, "two independently built objects of one cap" if v["eq"] else "objects of different caps"), exo)
+            if ne == eq:
+                mism.add("C43:%s:ne_not_negation" % who, "(a != b) == (a == b) == %s" % eq, exo)
+            elif ne != v["ne"] and eq == v["eq"]:
+                mism.add("C43:%s:ne_wrong" % who, "!= is %s" % ne, exo)
+            if eq != eq2 or ne != ne2:
+                mism.add("C43:%s:asymmetric" % who, "a==b is %s but b==a is %s" % (eq, eq2), exo)
+            if refl_eq is not True or refl_ne is not False:
+                mism.add("C43:%s:%s" % (ca, "ne_not_negation" if refl_ne == refl_eq else "not_reflexive"),
+                         "a == a is %r, a != a is %r" % (refl_eq, refl_ne), exo)
+            hs = []
+            for o_, cls_, sort_ in ((a, ca, case["cls1"]), (b, cb, case["cls2"])):
+                if sort_ in ("bytes", "none"):
+                    continue
+                try:
+                    hs.append(hash(o_))
+                except TypeError:
+                    mism.add("C43:%s:unhashable" % cls_, "hash() raises TypeError (__eq__ defined without __hash__)", exo)
+            if len(hs) == 2 and v["hash_eq"] and hs[0] != hs[1]:
+                mism.add("C43:%s:hash_differs" % who, "equal objects hash differently", exo)
+            if len(samples) < 4 and r == 0 and v["eq"] and case["t"] != "cap":
+                samples.append({"a": L.enc(s1), "b": L.enc(s2), "classes": who, "spec_eq": v["eq"], "code_eq": eq, "code_ne": ne})
+    g.close()
+    out.update({"mismatches": mism.as_list(), "stats": stats, "samples": samples})
+
 
 def main():
     ap = argparse.ArgumentParser()
@@ -220,7 +535,7 @@ def main():
     inp = json.load(open(a.inp)) if a.inp else {}
     rng = random.Random("caps-%s-%d" % (a.mode, a.seed))
     out = {}
-    {"c15": c15}[a.mode](inp, rng, out)
+    {"c15": c15, "c16": c16, "c43": c43}[a.mode](inp, rng, out)
     with open(a.out, "w") as f:
         json.dump(out, f)
 
